@@ -8,6 +8,7 @@ import (
 	"io"
 	"os"
 	"sync"
+	"sync/atomic"
 	"time"
 
 	"go4.org/jsonconfig"
@@ -60,10 +61,13 @@ type lowStore struct {
 	mu       sync.Mutex
 	over     map[blob.Ref][]byte
 	readonly bool
-	inc      int
 	events   []lowEvent
-	// hook decides the fate of a write (called without the lock held).
-	hook func(op string, refs []blob.Ref, size int) (action, int)
+	// hook decides the fate of a write (called without mu held): what to do, for a partial
+	// removal how many refs to remove, and whether the incarnation crashes right after.
+	hook func(op string, refs []blob.Ref, size int) (act action, k int, crash bool)
+	// gate makes a crash crisp: every write holds it shared while it takes effect; crashing an
+	// incarnation takes it exclusively, so no effect of the old incarnation happens afterwards.
+	gate sync.RWMutex
 	// per-incarnation counters
 	uploadsOK   map[int]int
 	removesDone map[int]int
@@ -151,7 +155,6 @@ func (l *lowStore) EnumerateBlobs(ctx context.Context, dest chan<- blob.SizedRef
 
 func (l *lowStore) record(e lowEvent) {
 	l.mu.Lock()
-	e.Inc = l.inc
 	l.events = append(l.events, e)
 	switch e.Op {
 	case "ReceiveBlob":
@@ -172,10 +175,39 @@ func (l *lowStore) record(e lowEvent) {
 	l.mu.Unlock()
 }
 
-func (l *lowStore) ReceiveBlob(ctx context.Context, br blob.Ref, src io.Reader) (blob.SizedRef, error) {
+// view is the handle one incarnation of the encrypt store has on a lower store.
+type view struct {
+	l    *lowStore
+	inc  int
+	dead *atomic.Bool // the incarnation crashed: no further effect
+	plan *inject.Plan
+}
+
+func (v *view) Fetch(ctx context.Context, ref blob.Ref) (io.ReadCloser, uint32, error) {
+	return v.l.Fetch(ctx, ref)
+}
+func (v *view) StatBlobs(ctx context.Context, blobs []blob.Ref, fn func(blob.SizedRef) error) error {
+	return v.l.StatBlobs(ctx, blobs, fn)
+}
+func (v *view) EnumerateBlobs(ctx context.Context, dest chan<- blob.SizedRef, after string, limit int) error {
+	return v.l.EnumerateBlobs(ctx, dest, after, limit)
+}
+
+func (v *view) crashNow() {
+	v.dead.Store(true)
+	v.plan.FreezeNow()
+}
+
+func (v *view) ReceiveBlob(ctx context.Context, br blob.Ref, src io.Reader) (blob.SizedRef, error) {
+	l := v.l
 	all, err := io.ReadAll(src)
 	if err != nil {
 		return blob.SizedRef{}, err
+	}
+	l.gate.RLock()
+	defer l.gate.RUnlock()
+	if v.dead.Load() {
+		return blob.SizedRef{}, inject.ErrFrozen
 	}
 	l.mu.Lock()
 	ro, hook := l.readonly, l.hook
@@ -183,40 +215,53 @@ func (l *lowStore) ReceiveBlob(ctx context.Context, br blob.Ref, src io.Reader) 
 	if ro {
 		return blob.SizedRef{}, errors.New("verif: wrapped store is read-only during the tamper phase")
 	}
-	act := actPass
+	act, crash := actPass, false
 	if hook != nil {
-		act, _ = hook("ReceiveBlob", []blob.Ref{br}, len(all))
+		act, _, crash = hook("ReceiveBlob", []blob.Ref{br}, len(all))
+	}
+	if crash {
+		defer v.crashNow()
 	}
 	if act == actFail {
-		l.record(lowEvent{Op: "ReceiveBlob", Refs: []blob.Ref{br}, Size: len(all), Err: true})
+		l.record(lowEvent{Inc: v.inc, Op: "ReceiveBlob", Refs: []blob.Ref{br}, Size: len(all), Err: true})
 		return blob.SizedRef{}, errHook
 	}
 	sb, err := l.mem.ReceiveBlob(ctx, br, bytes.NewReader(all))
 	if err == nil && act == actDoneFail {
 		err = errHook
 	}
-	l.record(lowEvent{Op: "ReceiveBlob", Refs: []blob.Ref{br}, Size: len(all), Err: err != nil})
+	l.record(lowEvent{Inc: v.inc, Op: "ReceiveBlob", Refs: []blob.Ref{br}, Size: len(all), Err: err != nil})
 	if err != nil {
 		return blob.SizedRef{}, err
 	}
 	return sb, nil
 }
 
-func (l *lowStore) RemoveBlobs(ctx context.Context, blobs []blob.Ref) error {
+func (v *view) RemoveBlobs(ctx context.Context, blobs []blob.Ref) error {
+	l := v.l
+	l.gate.RLock()
+	defer l.gate.RUnlock()
+	if v.dead.Load() {
+		return inject.ErrFrozen
+	}
 	l.mu.Lock()
 	ro, hook := l.readonly, l.hook
 	l.mu.Unlock()
 	if ro {
 		return errors.New("verif: wrapped store is read-only during the tamper phase")
 	}
-	act, k := actPass, 0
+	act, k, crash := actPass, 0, false
 	if hook != nil {
-		act, k = hook("RemoveBlobs", blobs, 0)
+		act, k, crash = hook("RemoveBlobs", blobs, 0)
+	}
+	if crash {
+		defer v.crashNow()
 	}
 	refs := append([]blob.Ref(nil), blobs...)
 	var err error
 	switch act {
 	case actFail:
+		refs = nil
 		err = errHook
 	case actPartial:
 		if k >= len(blobs) {
@@ -233,7 +278,7 @@ func (l *lowStore) RemoveBlobs(ctx context.Context, blobs []blob.Ref) error {
 	default:
 		err = l.mem.RemoveBlobs(ctx, blobs)
 	}
-	l.record(lowEvent{Op: "RemoveBlobs", Refs: refs, Size: len(blobs), Err: err != nil})
+	l.record(lowEvent{Inc: v.inc, Op: "RemoveBlobs", Refs: refs, Size: len(blobs), Err: err != nil})
 	return err
 }
 
@@ -306,6 +351,8 @@ type inst struct {
 	meta    *lowStore
 
 	inc      int
+	dead     *atomic.Bool // of the current incarnation
+	lastDead *atomic.Bool // of the most recent creation attempt
 	plan     *inject.Plan
 	lastPlan *inject.Plan // plan of the most recent creation attempt
 	kv       *spyKV
@@ -332,19 +379,16 @@ func newInst(r *ev.Run, root, id string) (*inst, error) {
 // EMPTY meta index.  arm may prepare the plan before any call is made.
 func (in *inst) create(arm func(p *inject.Plan)) (blobserver.Storage, *inject.Plan, *spyKV, error) {
 	in.inc++
-	for _, l := range []*lowStore{in.blobs, in.meta} {
-		l.mu.Lock()
-		l.inc = in.inc
-		l.mu.Unlock()
-	}
 	plan := inject.NewPlan()
 	in.lastPlan = plan
+	dead := new(atomic.Bool)
+	in.lastDead = dead
 	if arm != nil {
 		arm(plan)
 	}
 	ld := sto.NewLoader()
-	ld.Set("/enc-blobs/", inject.Wrap("blobs", in.blobs, plan))
-	ld.Set("/enc-meta/", inject.Wrap("meta", in.meta, plan))
+	ld.Set("/enc-blobs/", inject.Wrap("blobs", &view{l: in.blobs, inc: in.inc, dead: dead, plan: plan}, plan))
+	ld.Set("/enc-meta/", inject.Wrap("meta", &view{l: in.meta, inc: in.inc, dead: dead, plan: plan}, plan))
 	kv := &spyKV{KeyValue: sorted.NewMemoryKeyValue()}
 	name := fmt.Sprintf("c11-%s-%d", in.id, in.inc)
 	kvc := inject.RegisterKV(name, kv)
@@ -371,8 +415,19 @@ func (in *inst) open(arm func(p *inject.Plan)) error {
 	if err != nil {
 		return err
 	}
-	in.S, in.plan, in.kv, in.m0 = s, plan, kv, m0
+	in.S, in.plan, in.kv, in.m0, in.dead = s, plan, kv, m0, in.lastDead
 	return nil
+}
+
+// crash ends the most recently created incarnation for good: its wrappers are frozen and,
+// once crash returns, no write of it can take effect on the lower stores any more.
+func (in *inst) crash() {
+	in.lastPlan.FreezeNow()
+	for _, l := range []*lowStore{in.blobs, in.meta} {
+		l.gate.Lock()
+		in.lastDead.Store(true)
+		l.gate.Unlock()
+	}
 }
 
 // compactionCounts returns (launched, terminated) compaction goroutines of the current
